@@ -208,18 +208,12 @@ pub fn run(path: &str, out: &mut dyn Write) {
                     };
                     if let (Some(a), Some((l, next))) = (unhex(t[2]), parse(mi + 1)) {
                         if let Some((r, _)) = parse(next) {
-                            let res = crate::wire::guarded(move || {
-                                let d = vibrato::Dictionary::read(&a[..]).map_err(|_| ())?;
-                                let m = d.map_connection_ids_from_iter(l.into_iter(), r.into_iter()).map_err(|_| ())?;
-                                let mut b = vec![];
-                                m.write(&mut b).map_err(|_| ())?;
-                                Ok::<Vec<u8>, ()>(b)
-                            });
-                            let (btok, obs) = match res {
-                                None => ("panic".to_string(), "panic"),
-                                Some(Err(())) => ("err".to_string(), "err"),
-                                Some(Ok(b)) => (hex(&b), "ok same"),
+                            let (btok, obs, costs) = match crate::wire::guarded(|| vibrato::Dictionary::read(&a[..]).ok()).flatten() {
+                                Some(d) => crate::mapimg::map_obs(d, &l, &r),
+                                None => ("err".to_string(), "err", "na"),
                             };
+                            // the COSTS flag is recomputed
+                            let flags: String = flags.split(' ').map(|x| if x.starts_with("COSTS=") { format!("COSTS={costs}") } else { x.to_string() }).collect::<Vec<_>>().join(" ");
                             let head = t[..t.len() - 1].join(" ");
                             writeln!(out, "{head} {btok} IMPL {obs}{flags}").unwrap();
                         }
